@@ -455,6 +455,8 @@ def replay_differ(tier, seed, out):
     src = os.path.join(os.environ.get("REDUINO_REPO", "/repo"), "src")
     n = len(CORPUS)
     seeds = [0, 1, 2, 3, 4, 5, 6, 7] if tier != "thorough" else list(range(24))
+    if tier == "state-only":
+        seeds = [0]
     fresh = list(range(n))
     histories = [fresh, list(reversed(fresh)), fresh + fresh, [2, 2, 5, 2, 0, 3, 1, 4, 2, 5]]
     ref = {}
